@@ -31,7 +31,7 @@ PURE_INTRINSICS = ("llvm.fshl", "llvm.fshr", "llvm.bswap", "llvm.umin", "llvm.um
 def akey(addr):
     if addr is None:
         return None
-    return (addr.root[:2], tuple(s.off if s.off is not None else ("var", s.rng) for s in addr.segs))
+    return (addr.root[:2], tuple(s.off if s.off is not None else (("var", s.rng, s.el) if s.el else ("var", s.rng)) for s in addr.segs))
 
 
 def is_const_addr(addr):
@@ -457,12 +457,28 @@ class FuncAnalysis:
             st.must[key] = (loc, valterm)
         st.may.setdefault((key, tag), (loc, site))
 
+    def covered_by_must(self, st, addr, size):
+        """every byte of [addr, addr+size) lies in some definite store of this function (constant offsets)."""
+        if size is None or not is_const_addr(addr):
+            return False
+        lo = addr.segs[-1].off
+        need = set(range(lo, lo + size))
+        pre = (addr.root[:2], tuple(s.off for s in addr.segs[:-1]))
+        for k, (loc, t) in st.must.items():
+            a = loc.addr
+            if loc.size is None or not is_const_addr(a) or (a.root[:2], tuple(s.off for s in a.segs[:-1])) != pre:
+                continue
+            need -= set(range(a.segs[-1].off, a.segs[-1].off + loc.size))
+            if not need:
+                return True
+        return not need
+
     def do_read(self, addr, size, inst, st=None):
         """upward-exposed reads: loads of memory this function has not definitely written before"""
         if addr is None:
             return
         key = (self.reg(addr), size)
-        if st is not None and key in st.must:
+        if st is not None and (key in st.must or self.covered_by_must(st, addr, size)):
             return
         self.S.reads.setdefault(key, (Loc(addr, size), self.site(inst)))
 
@@ -650,7 +666,7 @@ class FuncAnalysis:
                 for (k2, (loc, w)) in s.reads.items():
                     a2 = xl_addr(loc.addr)
                     if a2 is not None and a2.root[0] != "alloca":
-                        if (akey(a2), loc.size) in st.must:
+                        if (akey(a2), loc.size) in st.must or self.covered_by_must(st, a2, loc.size):
                             continue      # the callee reads what this function has definitely written itself
                         self.S.reads.setdefault((self.reg(a2), loc.size), (Loc(a2, loc.size), site + " -> " + w))
                 for (iid, fn, sz, w) in s.allocs:
